@@ -167,8 +167,36 @@ func runPump(t *testing.T, capacity int, plan string, trace func(Step)) (steps [
 				break
 			}
 		}
+		// instances share nothing: an unbounded channel of ANOTHER element type works right after this one has recycled
+		// whatever it recycles (and before the next case starts); what goes wrong with it is a crash of this case
+		if !dead && !neighbour(capacity) {
+			rec(Step{K: "recv", O: "crash"})
+		}
 	})
 	return
+}
+
+// neighbour: three strings through pipe.New[string], then cancel; false when they do not arrive as sent
+func neighbour(capacity int) (ok bool) {
+	defer func() {
+		if recover() != nil {
+			ok = false
+		}
+	}()
+	ctx, cancel := context.WithCancel(context.Background())
+	defer cancel()
+	rcv, snd := pipe.New[string](ctx, capacity)
+	want := []string{"a", "b", "c"}
+	for _, v := range want {
+		snd <- v
+	}
+	synctest.Wait()
+	for _, v := range want {
+		if got := <-rcv; got != v {
+			return false
+		}
+	}
+	return true
 }
 
 // all plans of length n over S R C X with at most one C, at most one X and no S after X
